@@ -774,10 +774,29 @@ func c01RowColumns(c *Ctx, r string) {
 	if f == nil {
 		return
 	}
-	lookupOn := func(param string) sitePred {
+	// the two maps are told apart by their types (column name -> id; column id -> proven value), not by their names
+	lookupOn := func(which string) sitePred {
 		return func(in ssa.Instruction) bool {
 			l, ok := in.(*ssa.Lookup)
-			return ok && desc(l.X) == "param:"+param
+			if !ok {
+				return false
+			}
+			if _, isParam := l.X.(*ssa.Parameter); !isParam {
+				return false
+			}
+			m, ok := l.X.Type().Underlying().(*types.Map)
+			if !ok {
+				return false
+			}
+			kb, keyIsBasic := m.Key().Underlying().(*types.Basic)
+			if !keyIsBasic {
+				return false
+			}
+			if which == "colIdsByName" {
+				return kb.Kind() == types.String
+			}
+			_, valIsPtr := m.Elem().Underlying().(*types.Pointer)
+			return kb.Kind() == types.Uint32 && valIsPtr
 		}
 	}
 	from := sites(f, lookupOn("colIdsByName"))
@@ -793,8 +812,36 @@ func c01RowColumns(c *Ctx, r string) {
 	} else {
 		c.ok(r, fnName(f)+":every-column-looked-up", c.pos(from[0].Pos()), "every path to the next column or to success passes decodedRow[colID]")
 	}
-	absent := whenCond(false, atomContains("decodedRow"))
-	present := whenCond(true, atomContains("decodedRow"))
+	// the comma-ok outcome of the proven-row lookup
+	provenOk := func(v ssa.Value) bool {
+		e, ok := v.(*ssa.Extract)
+		return ok && e.Index == 1 && e.Tuple == ssa.Value(proven[0].(*ssa.Lookup))
+	}
+	foundEdge := func(want bool) edgePred {
+		return func(b *ssa.BasicBlock, succ int) bool {
+			if len(b.Instrs) == 0 {
+				return false
+			}
+			ifi, ok := b.Instrs[len(b.Instrs)-1].(*ssa.If)
+			if !ok {
+				return false
+			}
+			v, pol := ifi.Cond, true
+			for {
+				u, ok := v.(*ssa.UnOp)
+				if !ok || u.Op != token.NOT {
+					break
+				}
+				v, pol = u.X, !pol
+			}
+			if !provenOk(v) {
+				return false
+			}
+			return ((succ == 0) == pol) == want
+		}
+	}
+	absent := foundEdge(false)
+	present := foundEdge(true)
 	isEqual := func(in ssa.Instruction) bool {
 		cc := callOf(in)
 		return cc != nil && cc.IsInvoke() && cc.Method.Name() == "Equal"
